@@ -144,83 +144,90 @@ func (c *Ctx) ContributionRules(prop string) {
 					}
 					continue
 				}
-				nrecv++
 				target := ssa.Instruction(mu)
 				isVec := strings.Contains(strings.ToLower(f), "vvec") || isSliceType(mu.Value.Type())
-				x, path := an.Cut(an.CutQuery{From: an.Entry(fn), Target: func(i ssa.Instruction) bool { return i == target },
-					AcceptEdge: func(b *ssa.BasicBlock, i int, a *an.Atom) bool {
-						if a == nil || a.Op != "true" {
-							return false
+				// the store may sit in a helper (a method of the session, a per-peer helper): the check is looked for on every call
+				// chain from a protocol method, with the stored value and the session resolved through the chain
+				isRoot := func(g *ssa.Function) bool {
+					for _, m := range p.Methods {
+						if m == g {
+							return true
 						}
-						call, ok := a.LV.(*ssa.Call)
-						if !ok || call.Call.StaticCallee() != V {
-							return false
-						}
-						args := call.Call.Args
-						// the stored value is the one that was checked
-						if isVec && args[vVec] != mu.Value {
-							return false
-						}
-						if !isVec && args[vShare] != mu.Value {
-							return false
-						}
-						// checked against the instance's own id and the session threshold
-						idf, s1 := p.sessionFieldOf(args[vID])
-						if idf != "id" || s1 != sess {
-							return false
-						}
-						if vThr >= 0 {
-							tf, s2 := p.sessionFieldOf(args[vThr])
-							if tf != "threshold" || s2 != sess {
-								return false
-							}
-						}
-						return true
-					}})
-				if isVec {
-					// O2: the vector recorded has exactly session.threshold entries: through the check (if it tests the length itself) or a local test
-					y, ypath := an.Cut(an.CutQuery{From: an.Entry(fn), Target: func(i ssa.Instruction) bool { return i == target },
-						AcceptEdge: func(b *ssa.BasicBlock, i int, a *an.Atom) bool {
+					}
+					return false
+				}
+				nrecv += len(c.Chains(fn, target, isRoot, 4))
+				checkFor := func(needLenOnly bool) func(ch []Frame) AtomPred {
+					return func(ch []Frame) AtomPred {
+						last := ch[len(ch)-1].Sub
+						wantVal := last.Res(mu.Value)
+						sessVal := last.Res(sess)
+						sameSess := func(base ssa.Value, s2 Subst) bool { return base != nil && s2.Res(base) == sessVal }
+						return func(a *an.Atom, s2 Subst) bool {
 							if a == nil {
 								return false
 							}
-							if a.Op == "true" && verifyHasLen {
-								if call, ok := a.LV.(*ssa.Call); ok && call.Call.StaticCallee() == V && call.Call.Args[vVec] == mu.Value {
-									if tf, s2 := p.sessionFieldOf(call.Call.Args[vThr]); tf == "threshold" && s2 == sess {
-										return true
+							if a.Op == "true" && (!needLenOnly || verifyHasLen) {
+								call, ok := s2.Res(a.LV).(*ssa.Call)
+								if ok && call.Call.StaticCallee() == V {
+									args := call.Call.Args
+									okVal := false
+									if isVec && s2.Res(args[vVec]) == wantVal {
+										okVal = true
+									}
+									if !isVec && s2.Res(args[vShare]) == wantVal {
+										okVal = true
+									}
+									if okVal {
+										// checked against the instance's own id and the session threshold
+										idf, s1 := p.sessionFieldOf(s2.Res(args[vID]))
+										okSess := (needLenOnly || idf == "id") && (needLenOnly || sameSess(s1, s2))
+										if vThr >= 0 {
+											tf, st2 := p.sessionFieldOf(s2.Res(args[vThr]))
+											okSess = okSess && tf == "threshold" && sameSess(st2, s2)
+										}
+										if okSess {
+											return true
+										}
 									}
 								}
 							}
-							if a.Op == "==" {
+							if needLenOnly && a.Op == "==" {
 								strip := func(v ssa.Value) ssa.Value {
 									for {
 										if cv, ok := v.(*ssa.Convert); ok {
 											v = cv.X
 											continue
 										}
-										return v
+										return s2.Res(v)
 									}
 								}
 								l, r := strip(a.LV), strip(a.RV)
 								for _, side := range [][2]ssa.Value{{l, r}, {r, l}} {
 									call, ok := side[0].(*ssa.Call)
-									if ok && isBuiltin(call, "len") && call.Call.Args[0] == mu.Value {
-										if tf, s2 := p.sessionFieldOf(side[1]); tf == "threshold" && s2 == sess {
+									if ok && isBuiltin(call, "len") && s2.Res(call.Call.Args[0]) == wantVal {
+										if tf, st2 := p.sessionFieldOf(side[1]); tf == "threshold" && sameSess(st2, s2) {
 											return true
 										}
 									}
 								}
 							}
 							return false
-						}})
-					if y != nil {
-						c.R.Fail(rule2, Fn(fn)+":"+f, c.Pos(mu), "a received verification vector is recorded without its length having been tested against the session threshold: a longer vector makes commit index past the threshold-sized aggregate (crash), a shorter one yields accounts that fail only at the initiator's final check", "record only below [len(vector) == session.threshold] (in the contribution check or next to it)", an.PathString(c.Pos, ypath))
+						}
+					}
+				}
+				okChk, wit := c.InterCutCh(fn, target, isRoot, checkFor(false))
+				if isVec {
+					// O2: the vector recorded has exactly session.threshold entries: through the check (if it tests the length itself) or a local test
+					okLen, ywit := c.InterCutCh(fn, target, isRoot, checkFor(true))
+					if !okLen {
+						c.R.Fail(rule2, Fn(fn)+":"+f, c.Pos(mu), "a received verification vector is recorded without its length having been tested against the session threshold: a longer vector makes commit index past the threshold-sized aggregate (crash), a shorter one yields accounts that fail only at the initiator's final check", "record only below [len(vector) == session.threshold] (in the contribution check or next to it)", ywit)
 					} else {
 						c.R.OK(rule2, Fn(fn)+":"+f, c.Pos(mu), "recorded only below [len(vector) == session.threshold]")
 					}
 				}
-				if x != nil {
-					c.R.Fail(rule1, Fn(fn)+":"+f, c.Pos(mu), "a received "+f+" entry is recorded in the session without having passed the contribution check (against this instance's id and the session threshold)", "store only below [verifyContribution(session.id, session.threshold, share, vector) == true] for the same share and vector", an.PathString(c.Pos, path))
+				if !okChk {
+					c.R.Fail(rule1, Fn(fn)+":"+f, c.Pos(mu), "a received "+f+" entry is recorded in the session without having passed the contribution check (against this instance's id and the session threshold)", "store only below [verifyContribution(session.id, session.threshold, share, vector) == true] for the same share and vector", wit)
 				} else {
 					c.R.OK(rule1, Fn(fn)+":"+f, c.Pos(mu), "recorded only below the contribution check of the same share/vector against session.id and session.threshold")
 				}
@@ -634,15 +641,47 @@ func (c *Ctx) ThresholdRules(prop string) {
 		// (a) prepare handler passes the request threshold to OnPrepare; OnPrepare stores its threshold parameter in the session
 		P := p.Methods["OnPrepare"]
 		stored := false
-		for _, b := range P.Blocks {
-			for _, ins := range b.Instrs {
-				if st, ok := ins.(*ssa.Store); ok {
-					if fa, ok := st.Addr.(*ssa.FieldAddr); ok && namedOf(fa.X.Type()) == p.Session && fieldNameOf(fa) == "threshold" {
-						if prm, ok := st.Val.(*ssa.Parameter); ok && prm.Parent() == P {
+		isProto := func(g *ssa.Function) bool {
+			for _, m := range p.Methods {
+				if m == g {
+					return true
+				}
+			}
+			return false
+		}
+		// (a)+(b) every store to session.threshold initialises a fresh session object with the threshold parameter of prepare
+		// (directly, or in a constructor reached only from prepare); nothing else writes the field
+		for _, fn := range c.P.ModuleFuncs() {
+			if prog.PkgPathOf(fn) != p.Impl.Obj().Pkg().Path() {
+				continue
+			}
+			for _, b := range fn.Blocks {
+				for _, ins := range b.Instrs {
+					st, ok := ins.(*ssa.Store)
+					if !ok {
+						continue
+					}
+					fa, ok := st.Addr.(*ssa.FieldAddr)
+					if !ok || namedOf(fa.X.Type()) != p.Session || fieldNameOf(fa) != "threshold" {
+						continue
+					}
+					if _, fresh := fa.X.(*ssa.Alloc); !fresh {
+						okFlow = false
+						c.R.Fail(rule3, Fn(fn), c.Pos(st), "the threshold of an existing session is changed", "threshold fixed at prepare", nil)
+						continue
+					}
+					for _, ch := range c.Chains(fn, st, isProto, 4) {
+						if ch[0].Fn != P {
+							okFlow = false
+							c.R.Fail(rule3, Fn(fn), c.Pos(st), "the session threshold is changed after prepare (reached from "+Fn(ch[0].Fn)+")", "threshold fixed at prepare", nil)
+							continue
+						}
+						v := ch[len(ch)-1].Sub.Res(st.Val)
+						if prm, ok := v.(*ssa.Parameter); ok && prm.Parent() == P {
 							stored = true
 						} else {
 							okFlow = false
-							c.R.Fail(rule3, Fn(P), c.Pos(st), "the session threshold is not the threshold received in the prepare message: "+an.Term(st.Val), "session.threshold = threshold parameter", nil)
+							c.R.Fail(rule3, Fn(fn), c.Pos(st), "the session threshold is not the threshold received in the prepare message: "+an.Term(v), "session.threshold = threshold parameter", nil)
 						}
 					}
 				}
@@ -651,22 +690,6 @@ func (c *Ctx) ThresholdRules(prop string) {
 		if !stored {
 			okFlow = false
 			c.R.Fail(rule3, Fn(P), c.P.FuncPos(P), "prepare does not record the threshold in the session", "session.threshold = threshold parameter", nil)
-		}
-		// (b) every other store to session.threshold is forbidden
-		for _, fn := range c.P.ModuleFuncs() {
-			if prog.PkgPathOf(fn) != p.Impl.Obj().Pkg().Path() || fn == P {
-				continue
-			}
-			for _, b := range fn.Blocks {
-				for _, ins := range b.Instrs {
-					if st, ok := ins.(*ssa.Store); ok {
-						if fa, ok := st.Addr.(*ssa.FieldAddr); ok && namedOf(fa.X.Type()) == p.Session && fieldNameOf(fa) == "threshold" {
-							okFlow = false
-							c.R.Fail(rule3, Fn(fn), c.Pos(st), "the session threshold is changed after prepare", "threshold fixed at prepare", nil)
-						}
-					}
-				}
-			}
 		}
 		// (c) the account is imported with session.threshold
 		for _, fn := range c.P.ModuleFuncs() {
